@@ -121,6 +121,8 @@ struct CrystalData {
   bool name_null = false;
   double cell[6];
   std::vector<CAtom> atoms;
+  bool has_pristine_volume = false;   // shipped built-in entry: the generator stored a float-rounded volume
+  double pristine_volume = 0;
   double model_volume() const;   // harness's own triclinic formula
   bool volume_comparable() const;
 };
